@@ -16,18 +16,21 @@ def v(op, lens, ok=True, fail=False, op2=None, sv=0):
 UN = ['OP_1ADD', 'OP_1SUB', 'OP_NEGATE', 'OP_ABS', 'OP_NOT', 'OP_0NOTEQUAL']
 BIN = ['OP_ADD', 'OP_SUB', 'OP_BOOLAND', 'OP_BOOLOR', 'OP_NUMEQUAL', 'OP_NUMEQUALVERIFY', 'OP_NUMNOTEQUAL', 'OP_LESSTHAN', 'OP_GREATERTHAN', 'OP_LESSTHANOREQUAL', 'OP_GREATERTHANOREQUAL', 'OP_MIN', 'OP_MAX']
 quick = []
-for op in UN: quick += [v(op, [4]), v(op, [5], ok=False, fail=True), v(op, [], ok=False, fail=True)]
-for op in ['OP_ADD', 'OP_SUB', 'OP_NUMEQUALVERIFY', 'OP_LESSTHAN', 'OP_MIN', 'OP_BOOLAND']: quick += [v(op, [4, 4], fail=True), v(op, [2, 5], ok=False, fail=True), v(op, [1], ok=False, fail=True)]
-quick += [v('OP_WITHIN', [2, 2, 2]), v('OP_WITHIN', [4, 1, 0])]
+for op in UN: quick += [v(op, [1]), v(op, [5], ok=False, fail=True), v(op, [], ok=False, fail=True)]
+for op in ['OP_ADD', 'OP_SUB', 'OP_NUMEQUALVERIFY', 'OP_LESSTHAN', 'OP_MIN', 'OP_BOOLAND']: quick += [v(op, [1, 2], fail=True), v(op, [2, 5], ok=False, fail=True), v(op, [1], ok=False, fail=True)]
+quick += [v('OP_WITHIN', [1, 1, 1]), v('OP_WITHIN', [2, 1, 0])]
 for op, n in [('OP_DUP', 1), ('OP_DROP', 1), ('OP_2DROP', 2), ('OP_2DUP', 2), ('OP_3DUP', 3), ('OP_OVER', 2), ('OP_2OVER', 4), ('OP_ROT', 3), ('OP_SWAP', 2), ('OP_2SWAP', 4), ('OP_NIP', 2), ('OP_TUCK', 2), ('OP_IFDUP', 1), ('OP_DEPTH', 2)]:
     quick += [v(op, [2, 1, 3, 2][:n])]
     if n > 0 and op != 'OP_DEPTH': quick += [v(op, [2, 1, 3, 2][:n - 1], ok=False, fail=True)]
-quick += [v('OP_PICK', [2, 3, 1, 1], fail=True), v('OP_ROLL', [2, 3, 1, 1], fail=True), v('OP_PICK', [2, 1], fail=True), v('OP_ROLL', [1, 2, 2], fail=True)]
+quick += [v('OP_PICK', [2, 1], fail=True), v('OP_ROLL', [2, 1], fail=True)]   # deeper PICK/ROLL with a symbolic depth: CBMC returns counterexamples that do not replay (imprecise symbolic index into the heap array of vectors); not claimed
 quick += [v('OP_EQUAL', [3, 3]), v('OP_EQUAL', [2, 3]), v('OP_EQUALVERIFY', [2, 2], fail=True), v('OP_SIZE', [3]), v('OP_SIZE', [0]), v('OP_VERIFY', [2], fail=True), v('OP_VERIFY', [0], ok=False, fail=True)]
 quick += [v('OP_RETURN', [1], ok=False, fail=True), v('OP_NOP', [1]), v('OP_NOP4', [1], fail=True), v('OP_CAT', [1, 1], ok=False, fail=True), v('OP_MUL', [1, 1], ok=False, fail=True), v('OP_VERIF', [1], ok=False, fail=True),
           v('OP_RESERVED', [1], ok=False, fail=True), v('OP_ENDIF', [1], ok=False, fail=True)]
 quick += [v('OP_TOALTSTACK', [2, 1], op2='OP_FROMALTSTACK'), v('OP_FROMALTSTACK', [1], ok=False, fail=True)]
 thorough = list(quick)
+for op in UN: thorough.append(v(op, [4]))
+for op in ['OP_ADD', 'OP_SUB', 'OP_NUMEQUALVERIFY', 'OP_LESSTHAN', 'OP_MIN', 'OP_BOOLAND']: thorough.append(v(op, [4, 4], fail=True))
+thorough += [v('OP_WITHIN', [2, 2, 2]), v('OP_WITHIN', [4, 1, 0])]
 for op in BIN:
     for lens in ([0, 0], [1, 4], [4, 4], [3, 2], [5, 1], [4, 5]): thorough.append(v(op, lens, ok=(5 not in lens), fail=(5 in lens)))
 for op in UN:
@@ -58,12 +61,12 @@ HARNESSES = [
     H('scriptnum_encode', 'scriptnum.cpp', 'h_encode', link=['script/script.cpp', 'uint256.cpp'], shadow=['nofmt'], unwind=12, memunwind=40, timeout=2400, tier='thorough', objbits=10, backends=['default', 'cadical', 'kissat'],
       functions=['CScriptNum::serialize'], bounds='all 64-bit values except INT64_MIN (excluded by the documented contract of serialize)', assumptions=['value != INT64_MIN']),
     H('evalseq', 'evalseq.cpp', 'h_evalseq', link=['script/interpreter.cpp', 'script/script.cpp', 'script/script_error.cpp', 'primitives/transaction.cpp', 'uint256.cpp', 'hash.cpp', 'crypto/ripemd160.cpp', 'crypto/sha1.cpp', 'crypto/sha256.cpp'],
-      entries=seq_quick, shadow=['nofmt'], unwind=12, memunwind=40, timeout=600, objbits=11,
+      entries=seq_quick, shadow=['nofmt'], unwind=12, memunwind=40, timeout=900, objbits=11, unwindset='_ZN10CScriptNum9serializeERKl.0:7',
       functions=['EvalScript: ConditionStack, OP_IF/NOTIF/ELSE/ENDIF/VERIF, OP_0..OP_16, OP_CHECKLOCKTIMEVERIFY, OP_CHECKSEQUENCEVERIFY, OP_CHECKSIG(VERIFY) via EvalChecksigPreTapscript, FindAndDelete'],
       stubs=['signature checker = abstract checker with symbolic verdicts (records its arguments)', 'CPubKey/XOnlyPubKey nondeterministic stubs (unreached: no encoding flags)', 'tinyformat -> empty strings'],
       bounds='%d scripts of <= 4 opcodes; <= 3 stack elements of concrete length <= 5; flags MINIMALDATA, MINIMALIF, CLTV, CSV, NULLFAIL, DISCOURAGE_UPGRADABLE_NOPS symbolic; SigVersion BASE or WITNESS_V0 per entry' % len(seq_quick)),
     H('evalop', 'evalop.cpp', 'h_evalop', link=['script/interpreter.cpp', 'script/script.cpp', 'script/script_error.cpp', 'primitives/transaction.cpp', 'uint256.cpp', 'hash.cpp', 'crypto/ripemd160.cpp', 'crypto/sha1.cpp', 'crypto/sha256.cpp'],
-      entries=quick, tentries=thorough, shadow=['nofmt'], unwind=12, memunwind=40, timeout=600, objbits=11,
+      entries=quick, tentries=thorough, shadow=['nofmt'], unwind=12, memunwind=40, timeout=900, objbits=11, unwindset='_ZN10CScriptNum9serializeERKl.0:7',
       functions=['EvalScript (script/interpreter.cpp)', 'CScriptNum ctor/getint/getvch/serialize/IsMinimallyEncoded (script/script.h)', 'CastToBool', 'CScript::GetOp/GetScriptOp', 'stack helpers (stacktop, popstack)', 'std::vector<std::vector<unsigned char>> (libstdc++)'],
       stubs=['tinyformat -> empty strings', 'assertion_fail -> CBMC assertion', 'BaseSignatureChecker (default: every check fails; not reached by these opcodes)'],
       bounds='one opcode per query (%d quick / %d thorough shapes); <= 4 stack elements of 0..5 bytes (concrete lengths, symbolic bytes); flags MINIMALDATA, DISCOURAGE_UPGRADABLE_NOPS, MINIMALIF symbolic; SigVersion BASE' % (len(quick), len(thorough))),
